@@ -174,12 +174,30 @@ class Seam(Part):
         return out
 
     @staticmethod
-    def oracle(out, eig, fx, fy, gx, gy, T, x_name, has_zero, tolrel=1e-6):
+    def oracle(out, eig, fx, fy, gx, gy, T, x_name, has_zero, tolrel=1e-6, real=False):
         kind = 'zeroT' if has_zero else 'regular'
-        if algebraic_cond(fx, fy, gx, gy, T) > 1e8:
-            return        # precondition of the property (non-singular algebraic block) fails: nothing is claimed
         mu = np.asarray(eig.mu).ravel()
-        ref = ref_pencil(fx, fy, gx, gy, T)
+        if not real:
+            if algebraic_cond(fx, fy, gx, gy, T) > 1e8:
+                return        # precondition of the property (non-singular algebraic block) fails: nothing is claimed
+            ref = ref_pencil(fx, fy, gx, gy, T)
+        else:
+            # Real networks: the algebraic block is badly scaled (cond 1e9..1e10 in every stock case) although the reduction is
+            # accurate to 1e-12, and the finite-eigenvalue filter of the QZ pencil is unreliable there. Reference = eigenvalues of
+            # the Schur reduction computed by the harness; precondition = both eliminations are numerically non-singular.
+            z = np.flatnonzero(T == 0)
+            try:
+                A0 = fx - fy @ np.linalg.solve(gy, gx)
+                czz = np.linalg.cond(A0[np.ix_(z, z)]) if len(z) else 1.0
+            except np.linalg.LinAlgError:
+                return
+            if not np.isfinite(czz) or czz > 1e10 or np.linalg.cond(gy) > 1e14:
+                return
+            # structure holds whatever the conditioning: one mode per state with a non-zero time constant
+            n_dyn = int(np.sum(T != 0))
+            if len(mu) != n_dyn:
+                out.bad(f'mode_count_wrong:{kind}', f'{len(mu)} eigenvalues reported, {n_dyn} states have a non-zero time constant')
+            ref = np.linalg.eigvals(ref_state_matrix(fx, fy, gx, gy, T)[0])
         d = match(mu, ref)
         if d > tolrel:
             out.bad(f'eigenvalues_wrong:{kind}', f'reported {np.round(np.sort_complex(mu), 5).tolist()} vs pencil '
@@ -283,7 +301,7 @@ class Real(Part):
         fx, fy, gx, gy = (matrix_to_np(M) for M in (dae.fx, dae.fy, dae.gx, dae.gy))
         T = np.array(dae.Tf, dtype=float)
         has_zero = bool(np.any(T == 0))
-        Seam.oracle(out, ss.EIG, fx, fy, gx, gy, T, list(dae.x_name), has_zero, tolrel=1e-5)
+        Seam.oracle(out, ss.EIG, fx, fy, gx, gy, T, list(dae.x_name), has_zero, tolrel=1e-5, real=True)
         if not ok:
             out.bad('eig_run_failed', 'EIG.run returned False')
         mu = np.asarray(ss.EIG.mu).ravel()
@@ -293,8 +311,82 @@ class Real(Part):
         return out
 
 
+class Rerun(Part):
+    """EIG run repeatedly on ONE System while time constants move between zero and non-zero (Model.alter)."""
+    name = 'rerun'
+    chunk = 4
+    timeout = 600.0
+    nproc = 8
+
+    OPS = ['TR=0', 'TR=0.05', 'TBC=0', 'TBC=orig']
+
+    def __init__(self, tier='quick'):
+        self.tier = tier
+
+    def describe(self, tier):
+        d = 3 if tier == 'quick' else 4
+        return (f'kundur_full, one System: all sequences of depth <= {d} over {self.OPS} (EXDC2 #1 filter constant; EXDC2 #2 lead-lag '
+                f'constants), EIG.run + full oracle after every operation (zero -> non-zero -> zero histories)')
+
+    def cases(self, tier):
+        d = 3 if tier == 'quick' else 4
+        out = []
+        for r in range(1, d + 1):
+            out += [list(q) for q in itertools.product(range(len(self.OPS)), repeat=r)]
+        return out
+
+    def execute(self, case):
+        from vmc import systems
+        out = Outcome()
+        ss = systems.load_case('kundur/kundur_full.xlsx')
+        systems.quiet_tds(ss)
+        ss.PFlow.run()
+        i1, i2 = ss.EXDC2.idx.v[0], ss.EXDC2.idx.v[1]
+        tb0, tc0 = float(ss.EXDC2.TB.v[1]), float(ss.EXDC2.TC.v[1])
+        seen = set()
+        log = []
+        try:
+            ss.EIG.run()
+            for step, k in enumerate(case):
+                op = self.OPS[k]
+                if op == 'TR=0':
+                    ss.EXDC2.alter('TR', i1, 0.0)
+                elif op == 'TR=0.05':
+                    ss.EXDC2.alter('TR', i1, 0.05)
+                elif op == 'TBC=0':
+                    ss.EXDC2.alter('TB', i2, 0.0)
+                    ss.EXDC2.alter('TC', i2, 0.0)
+                else:
+                    ss.EXDC2.alter('TB', i2, tb0)
+                    ss.EXDC2.alter('TC', i2, tc0)
+                ok = ss.EIG.run()
+                dae = ss.dae
+                fx, fy, gx, gy = (matrix_to_np(M) for M in (dae.fx, dae.fy, dae.gx, dae.gy))
+                T = np.array(dae.Tf, dtype=float)
+                sub = Outcome()
+                Seam.oracle(sub, ss.EIG, fx, fy, gx, gy, T, list(dae.x_name), bool(np.any(T == 0)), tolrel=1e-5, real=True)
+                if not ok:
+                    sub.bad('eig_run_failed', 'EIG.run returned False')
+                n_modes = int(np.asarray(ss.EIG.mu).size)
+                log.append([op, int(np.sum(T == 0)), n_modes])
+                for v in sub.violations:
+                    hist = 'after_zero_to_nonzero' if any(self.OPS[j] in ('TR=0', 'TBC=0') for j in case[:step]) else 'first_change'
+                    sig = f'{v["sig"]}:rerun:{hist}'
+                    if sig not in seen:
+                        seen.add(sig)
+                        out.bad(sig, f'after {[self.OPS[j] for j in case[:step + 1]]}: {v["msg"]}')
+        except Exception as e:
+            import traceback
+            tb = traceback.extract_tb(e.__traceback__)
+            out.bad(f'eig_raises:{type(e).__name__}@{tb[-1].name if tb else "?"}:rerun', f'{type(e).__name__}: {e}')
+        out.obs = dict(log=log)
+        out.transitions = len(case) + 1
+        out.nontrivial = True
+        return out
+
+
 def parts(tier):
-    return [Seam(tier), Real(tier)]
+    return [Seam(tier), Real(tier), Rerun(tier)]
 
 
 def run(run, only=None):
